@@ -10,7 +10,7 @@ from common import R, fl
 
 from common import wiring_pre_build as pre_build  # noqa: E402,F401
 
-LEAN_MODULES = ["PyomaVerif.Props.C11", "PyomaVerif.Mutants.C11", "PyomaVerif.Props.WiringMpe", "PyomaVerif.Props.C11Plscf"]
+LEAN_MODULES = ["PyomaVerif.Props.C11", "PyomaVerif.Mutants.C11", "PyomaVerif.Props.WiringMpe", "PyomaVerif.Props.C11Plscf", "PyomaVerif.Props.C11Stored"]
 THEOREMS = [
     # call-site wiring of the class layer, regenerated from /repo on every run (translate_wiring.py)
     "PV.WiringMpe.C11_ssi_mpe_args",
@@ -57,6 +57,9 @@ THEOREMS = [
     "PV.C11.C11_find_min_from_order_first",
     "PV.C11.C11_find_min_qual_iff_poles",
     "PV.C11.Mutants.ssi_find_min_counts_values_not_poles",
+    # depth round (audit C11 gap 4): extraction from the STORED tables (one mask, C09) returns whole retained poles with their unfiltered values
+    "PV.C11Stored.C11_stored_whole",
+    "PV.C11Stored.C11_run_extract",
 ]
 RULE = (
     "correspondence: ssi.SSI_mpe / plscf.pLSCF_mpe vs Mpe.ssiMpe / Mpe.plscfMpe on random pole tables (<= 10x10, values on a "
